@@ -112,6 +112,18 @@ func par1Cycle(r *Run, hostile bool) {
 		w.Files[0].Data = []byte{0x42}
 		w.Disk.Put(w.Path(0), w.Files[0].Data)
 	}
+	if len(w.Files)+w.R < 250 && t.Bool(1, 12, "nul-twin-name") {
+		// two names that differ only by a trailing NUL character (possible
+		// in a PAR1 entry, whose names are counted UTF-16 strings, and on
+		// the simulated disk)
+		src := w.Files[t.Draw(len(w.Files), "twin-of")]
+		if !strings.Contains(src.Name, "\x00") {
+			nf := ref.Protected{Name: src.Name + "\x00", Data: expandContent(ckRandom, t.Draw64(0, "twin-seed"), 1+t.Draw(100, "twin-len"), 4)}
+			w.Files = append(w.Files, nf)
+			w.Disk.Put(w.Path(len(w.Files)-1), nf.Data)
+			r.Probe("names-differing-by-trailing-NUL")
+		}
+	}
 	// spelling of the index path and the inputs: absolute, or relative
 	// to the virtual working directory when that is the set's directory
 	index := w.Index
@@ -266,7 +278,7 @@ func (w *World) hostilePar1(r *Run) string {
 	t := r.T
 	t.Begin("hostile-par1")
 	defer t.End()
-	kinds := []string{"flip-in-volume", "truncate-volume", "foreign-volume", "garbage-volume", "flip-in-index", "empty-volume", "forged-volume"}
+	kinds := []string{"flip-in-volume", "truncate-volume", "foreign-volume", "garbage-volume", "flip-in-index", "empty-volume", "forged-volume", "volume-holds-sibling", "volume-holds-index"}
 	kind := kinds[t.Draw(len(kinds), "kind")]
 	return w.hostilePar1Kind(r, kind)
 }
@@ -332,6 +344,36 @@ func (w *World) hostilePar1Kind(r *Run, kind string) string {
 		}
 		w.Disk.Put(w.VolumePath(w.R+1), b)
 		r.Logf("hostile garbage volume p%02d", w.R+1)
+	case "volume-holds-sibling":
+		// one valid file turned into another valid-looking one: a volume
+		// file holds the bytes of another volume of the same set (a
+		// mix-up when copying), and that other volume is gone, swapped
+		// with it, or still in place
+		if len(present) < 2 {
+			return "none"
+		}
+		i := t.Draw(len(present), "dst")
+		j := (i + 1 + t.Draw(len(present)-1, "src")) % len(present)
+		dst, src := w.VolumePath(present[i]), w.VolumePath(present[j])
+		db, _ := w.Disk.Get(dst)
+		sb, _ := w.Disk.Get(src)
+		w.Disk.Put(dst, append([]byte(nil), sb...))
+		switch t.Draw(3, "source-fate") {
+		case 0:
+			w.Disk.Remove(src)
+		case 1:
+			w.Disk.Put(src, append([]byte(nil), db...))
+		}
+		r.Logf("hostile: %s now holds the bytes of %s", filepath.Base(dst), filepath.Base(src))
+		r.Probe("volume-holds-sibling-bytes")
+	case "volume-holds-index":
+		p, _ := pick()
+		ib, ok := w.Disk.Get(w.Index)
+		if p == "" || !ok {
+			return "none"
+		}
+		w.Disk.Put(p, append([]byte(nil), ib...))
+		r.Logf("hostile: %s now holds the bytes of the index", filepath.Base(p))
 	case "flip-in-index":
 		b, _ := w.Disk.Get(w.Index)
 		b = append([]byte(nil), b...)
